@@ -78,6 +78,19 @@ func verifPoolGet(kind uint8, obj interface{}) {
 	}
 }
 
+// verifPoison scribbles over the buffers of an object that is going back to
+// its pool (only while the tracker is on): whoever still holds a slice into
+// them reads 0xEE from now on instead of what happened to be left there, so a
+// stale alias shows in the observable behaviour of a single connection.
+func verifPoison(obj interface{}) {
+	if strm, ok := obj.(*Stream); ok {
+		b := strm.previousHeaderBytes[:cap(strm.previousHeaderBytes)]
+		for i := range b {
+			b[i] = 0xEE
+		}
+	}
+}
+
 func verifPoolPut(kind uint8, obj interface{}) {
 	if verifQuiet {
 		return
@@ -89,6 +102,8 @@ func verifPoolPut(kind uint8, obj interface{}) {
 	if !t.on {
 		return
 	}
+	verifPoison(obj)
+
 	p := verifAddr(obj)
 	t.puts[kind]++
 	if in, seen := t.inPool[p]; seen && in {
